@@ -548,6 +548,24 @@ def dispatch(it, body, st, t, fn, args, depth):
             if cb is not None:
                 argv = list(tup[1]) if tup[0] == "tuple" else []
                 return list(it.run_body(cb, st, [TUPLE(list(clo[2]))] + argv, depth + 1))
+    # iN::checked_sub_unsigned / checked_add_unsigned (the MIN edge of a signed conversion written with std helpers)
+    if name in ("checked_sub_unsigned", "checked_add_unsigned") and len(args) == 2:
+        a, u = it.deref_all(st, args[0]), it.deref_all(st, args[1])
+        if a[0] == "int" and u[0] in ("int", "mag") and a[1].is_const():
+            ty = a[2]
+            bits_ = {"8": 8, "16": 16, "32": 32, "64": 64, "128": 128, "size": 64}.get(ty[1:], 64)
+            lo_, hi_ = -(1 << (bits_ - 1)), (1 << (bits_ - 1)) - 1
+            r_ = a[1] - u[1] if name == "checked_sub_unsigned" else a[1] + u[1]
+            if u[1].is_const():
+                v_ = r_.const_value()
+                return ret(st, ENUM("core::option::Option", "Some", [INT(v_, ty)]) if lo_ <= v_ <= hi_ else ENUM("core::option::Option", "None", []))
+            # symbolic non-negative u: the result fits iff u <= a - lo (sub) / u <= hi - a (add): decide three-way like cmp()
+            lim = Poly.const(a[1].const_value() - lo_ if name == "checked_sub_unsigned" else hi_ - a[1].const_value())
+            o = cmp_polys(st, u[1], lim)
+            if o <= 0:
+                rr_ = r_ if o < 0 else (a[1] - lim if name == "checked_sub_unsigned" else a[1] + lim)
+                return ret(st, ENUM("core::option::Option", "Some", [INT(rr_, ty)]))
+            return ret(st, ENUM("core::option::Option", "None", []))
     # Ordering::then_with(closure) / then(other)
     if name in ("then_with", "then") and len(args) == 2 and args[0][0] == "ord":
         if args[0][1] != 0:
